@@ -30,3 +30,4 @@ func MutexLocked(m *sync.Mutex) bool               { return false }
 func FreshF64(lo, hi float64) float64              { return lo }
 func Advance()                                     {}
 func PickStr(label string, a, b string) string     { return a }
+func IsNonNilPointer(v any) bool                   { return false }
